@@ -100,14 +100,14 @@ def run_case(case):
             if notin and k0[0] != "MISSING-FACTOR":
                 bad = refsem.valid(m, dict(zip(m.design, [list(x) for x in k0])))
                 sig += "/" + (common.invalid_tail(m, bad) if bad else "?")
-            base.update(outcome="violation", signature=sig,
+            base.update(outcome="violation", signature=common.with_family(sig, m),
                         detail="policy %s: %d returned, |V|=%d (distinct %d); e.g. %s x%d (allowed %d) ; design=%s" % (
                             [case["knobs"]["peer"], case["peer2"]][pi], n, total, len(V), json.dumps(refsem.key_to_named(m, k0) if k0[0] != "MISSING-FACTOR" else str(k0)), L[k0], V.get(k0, 0), dast.describe(ast)))
             return base
         if missing and not faulted:
             k0 = sorted(missing, key=repr)[0]
             sig = "C02/missing-valid-sequence" + ("/all" if not L else "")
-            base.update(outcome="violation", signature=sig,
+            base.update(outcome="violation", signature=common.with_family(sig, m),
                         detail="policy %s: %d returned, |V|=%d; valid sequence never returned: %s (returned %d of %d) ; design=%s" % (
                             [case["knobs"]["peer"], case["peer2"]][pi], n, total, json.dumps(refsem.key_to_named(m, k0)), L.get(k0, 0), V[k0], dast.describe(ast)))
             return base
@@ -117,7 +117,7 @@ def run_case(case):
             return base
     full = [r for r in results if r is not None and not r[3]]
     if len(full) == 2 and full[0][0] != full[1][0]:
-        base.update(outcome="violation", signature="C02/order-dependent-solution-set",
+        base.update(outcome="violation", signature=common.with_family("C02/order-dependent-solution-set", m),
                     detail="policies disagree ; design=%s" % dast.describe(ast))
         return base
     base["outcome"] = "ok"
